@@ -29,11 +29,13 @@ pub open spec fn sem2(ev: &Evaluator<'_>, slots: SlotEnv, e1: Expr, e2: Expr, f:
 /// the ordering of comparable extension values is total (the operations themselves: C07)
 pub broadcast axiom fn axiom_ext_total(x: RepresentableExtensionValue, y: RepresentableExtensionValue)
     ensures #![trigger ext_lt(y, x)] #![trigger ext_le(x, y)] ext_lt(y, x) == !ext_le(x, y);
+pub open spec fn and_e(a: Expr, b: Expr) -> Expr { mk(ExprKind::And { left: Arc::new(a), right: Arc::new(b) }) }
+pub open spec fn or_e(a: Expr, b: Expr) -> Expr { mk(ExprKind::Or { left: Arc::new(a), right: Arc::new(b) }) }
 /// same meaning in every evaluator and slot environment
 pub open spec fn sem_same(a: Expr, b: Expr) -> bool { forall|ev: &Evaluator<'_>, slots: SlotEnv| #[trigger] sem(ev, slots, a) == sem(ev, slots, b) }
 pub proof fn lemma_fold_and(r: Expr, e1: Expr, e2: Expr)
     requires r.expr_kind == fold_and(e1, e2),
-    ensures sem_same(r, mk(ExprKind::And { left: Arc::new(e1), right: Arc::new(e2) })),
+    ensures sem_same(r, and_e(e1, e2)),
 {
     reveal_with_fuel(sem, 3);
     let a = mk(ExprKind::And { left: Arc::new(e1), right: Arc::new(e2) });
@@ -43,7 +45,7 @@ pub proof fn lemma_fold_and(r: Expr, e1: Expr, e2: Expr)
 }
 pub proof fn lemma_fold_or(r: Expr, e1: Expr, e2: Expr)
     requires r.expr_kind == fold_or(e1, e2),
-    ensures sem_same(r, mk(ExprKind::Or { left: Arc::new(e1), right: Arc::new(e2) })),
+    ensures sem_same(r, or_e(e1, e2)),
 {
     reveal_with_fuel(sem, 3);
     let a = mk(ExprKind::Or { left: Arc::new(e1), right: Arc::new(e2) });
@@ -64,4 +66,14 @@ pub proof fn lemma_not_bin(r: Expr, op: BinaryOp, e1: Expr, e2: Expr)
         let s1 = sem(ev, slots, e1); let s2 = sem(ev, slots, e2);
         let inner = sem(ev, slots, *not_arg(r));
     }
+}
+// ---- scope constraints and the policy condition ----
+#[verifier::external_body] pub struct PolicyID { _p: u8 }
+#[verifier::external_body] pub struct Annotations { _p: u8 }
+#[derive(Clone, Copy, PartialEq, Eq)] pub enum Effect { Permit, Forbid }
+impl SlotId {
+    pub uninterp spec fn spec_principal() -> SlotId;
+    pub uninterp spec fn spec_resource() -> SlotId;
+    #[verifier::external_body] pub fn principal() -> (r: Self) ensures r == Self::spec_principal() { unimplemented!() }
+    #[verifier::external_body] pub fn resource() -> (r: Self) ensures r == Self::spec_resource() { unimplemented!() }
 }
